@@ -189,6 +189,31 @@ Arguments g_status {P}. Arguments g_src {P}. Arguments g_base {P}. Arguments g_s
 Arguments g_err_src {P}. Arguments g_err_base {P}. Arguments g_tail {P}.
 Arguments Build_source {P}. Arguments s_addr {P}. Arguments s_res {P}.
 
+(* ================= the HTTP transport shared by all fetches of one run =================
+   internal/transport/transport.go: ONE transport object serves every HTTP fetch of a pprof run
+   (sources, bases, symbolz).  RoundTrip loads the -tls_cert/-tls_key/-tls_ca files once (initOnce:
+   the only state that survives between requests) and then builds the TLS policy PER REQUEST:
+   RootCAs / client certificates from the loaded files, InsecureSkipVerify iff the request's scheme is
+   https+insecure; a fresh http.Transport per request.  [rq_trusted] is the oracle "the server's
+   certificate verifies against RootCAs (the -tls_ca pool, else the system roots)".  The result is
+   whether the connection is established; the server's answer is the source's own oracle. *)
+Record tr_req := { rq_scheme : string; rq_trusted : bool }.
+Inductive tr_state := TrFresh | TrReady.
+
+Definition tr_round_trip (st : tr_state) (r : tr_req) : tr_state * bool :=
+  (TrReady,
+   if String.eqb (rq_scheme r) "http" then true
+   else if String.eqb (rq_scheme r) "https+insecure" then true
+   else if String.eqb (rq_scheme r) "https" then rq_trusted r
+   else false).
+
+(* the requests of a run in the order they reach the transport: (who, request) |-> (who, connected) *)
+Fixpoint tr_run {W} (st : tr_state) (rs : list (W * tr_req)) : list (W * bool) :=
+  match rs with
+  | [] => []
+  | (w, r) :: t => let '(st', ok) := tr_round_trip st r in (w, ok) :: tr_run st' t
+  end.
+
 (* ================= toy instance used by the case runner =================
    A profile is (sample type name, [(key, value)]): one sample type, one value per sample, the key
    stands for the sample's stack.  "" as type = a profile without sample types.
